@@ -161,6 +161,7 @@ structure W where
   nConnect : Nat := 0
   shutdown : Bool := false        -- g_proceeding_shutdown
   closedByScript : List Nat := []
+  tcpClients : List Nat := []     -- ghost: clients whose connect() reached the listening socket (accepted or not)
   outs : List (Nat × String) := []   -- output of connections the driver has closed
   masterRef : Int := 0            -- ghost: master_ob->ref relative to the start of backend()
   backlog : List IoEv := []       -- entries of g_io_events[] a longjmp out of process_io() left unprocessed
@@ -792,7 +793,7 @@ inductive Action
 /-- what the outside world does while the driver waits in do_comm_polling(): returns the reported I/O events -/
 def applyAction (w : W) : Action → W × List IoEv
   | .tick dt => ({ w with clock := (Int.ofNat w.clock + dt).toNat, hbFlag := true }, [.wakeup])
-  | .conn c => (w, [.accept c])
+  | .conn c => ({ w with tcpClients := c :: w.tcpClients }, [.accept c])
   | .send c text =>
     match connOfClient w c with
     | some r => (w, [.data r.id text])
@@ -894,9 +895,12 @@ def insertByKey (e : Nat × String) : List (Nat × String) → List (Nat × Stri
 /-- (client, output) of every connection that still exists -/
 def liveOuts (w : W) : List (Nat × String) := (slots w).filterMap (fun s => s.map (fun c => (c.client, c.out)))
 
-/-- outputs the harness can still read: not of clients the script itself closed -/
+/-- outputs the harness can still read: not of clients the script itself closed.  A client whose connection the
+    driver never accepted (the accept was abandoned by a longjmp, or the driver was shut down first) has read nothing. -/
 def allOuts (w : W) : List (Nat × String) :=
-  (w.outs.reverse ++ liveOuts w).filter (fun e => !(w.closedByScript.contains e.1))
+  let known := w.outs.reverse ++ liveOuts w
+  let never := (w.tcpClients.reverse.filter (fun c => !(known.any (fun e => e.1 == c)))).map (fun c => (c, ""))
+  (known ++ never).filter (fun e => !(w.closedByScript.contains e.1))
 
 def exitEv (w : W) : Ev := if w.shutdown then .exitShutdown else .exitLoop
 def outEv (e : Nat × String) : Ev := .out s!"c{e.1}" e.2
